@@ -308,6 +308,38 @@ pub fn run_c05(ctx: &Ctx, rep: &mut Report) {
         |j, c, l| check(j, c, l, false),
     );
     rep.extra.insert("formats".into(), json!(js.iter().map(|j| cat().entries[j.entry].name).collect::<std::collections::BTreeSet<_>>()));
+    binade_sweep(rep, ctx, "radix:binade-sweep", &js, false);
+}
+
+/// every binade from 300 below the smallest subnormal to 300 above the largest finite value, per format and type
+/// (outside the range the exact answer is a signed zero or infinity; a shift count, an exponent limit or a table
+/// index that is wrong for one binade / one radix shows here)
+pub fn binade_sweep(rep: &mut Report, ctx: &Ctx, sub: &str, js: &[Job], lossy: bool) {
+    let per = ctx.n(4, 28);
+    run_enum(rep, ctx, sub, js.len(), |ji, l, viol| {
+        let j = &js[ji];
+        let m = &cat().models[j.entry];
+        let k = kind_of(j.ty);
+        let rx = m.radices();
+        let ec = exp_char_for(m);
+        let lo = 1 - k.bias() - (k.p as i64 - 1) - 300;
+        let hi = (k.max_exp_field() as i64 - 1) - k.bias() + 300;
+        for e2 in lo..=hi {
+            let mut h = mix(ctx.seed, &["binade", &ji.to_string(), &e2.to_string()]);
+            for i in 0..per {
+                h = splitmix(h);
+                let mant = if i == 0 { 1u64 << 52 } else { (1u64 << 52) | (h >> 12) };
+                let text = gen::binade_text(rx, mant, e2 - 52, b'.', ec, h & 2 != 0, crate::c01::SIG_BITS[(i as usize + (h >> 20) as usize) % crate::c01::SIG_BITS.len()]);
+                let c = Case { text, class: "binade-sweep", junk: JUNK[(h >> 8) as usize % JUNK.len()] };
+                if let Err(f) = check(j, &c, l, lossy) {
+                    if filter_known(ctx, l, &f) {
+                        viol.push((f.message, case_json(j, &c)));
+                        return;
+                    }
+                }
+            }
+        }
+    });
 }
 
 pub fn run_c19(ctx: &Ctx, rep: &mut Report) {
@@ -335,6 +367,7 @@ pub fn run_c19(ctx: &Ctx, rep: &mut Report) {
         case_json,
         |j, c, l| check(j, c, l, true),
     );
+    binade_sweep(rep, ctx, "lossy:binade-sweep", &js, true);
 }
 
 fn replay_common(case: &Value, lossy: bool) -> CaseResult {
